@@ -601,6 +601,111 @@ Section Agree.
     - exact Hsum.
     - destruct (sig_ok (fast_rev (s_pkm_pairs_rev sm))); cbn [negb]; [exact Hsum|exact I].
   Qed.
+
+  (* ---------- INTERNED_GENERATOR ---------- *)
+  (* run_spendbundle after its base cost has been computed *)
+  Definition rsb_core (base : N) (spends : list cspend) (max_cost : N)
+    : res (bundle * list spend * list (bytes * bytes)) :=
+    cost_left <- subtract_cost max_cost base ;;
+    if f_limit_spends (bf_cond fl) && (MAX_SPENDS_PER_BLOCK <? N.of_nat (length spends)) then Err TooManySpends
+    else
+      '(ret, state, cost_left') <- sb_loop valid_key H K run fl spends empty_bundle empty_state cost_left ;;
+      let spends1 := post_process H VMempool (fast_rev (b_spends_rev ret)) state in
+      _ <- validate_conditions H ret spends1 state ;;
+      if max_cost <? cost_left' then Err InternalPanic
+      else Ok (b_set_cost ret (max_cost - cost_left'), spends1, fast_rev (s_pkm_pairs_rev state)).
+
+  Lemma run_spendbundle_core spends max_cost :
+    run_spendbundle valid_key H K run cpb fl spends max_cost =
+    (base <- calculate_base_cost cpb fl spends ;; rsb_core base spends max_cost).
+  Proof. reflexivity. Qed.
+
+  Definition mempool_core (base : N) (spends : list cspend) (max_cost : N) :=
+    if f_dont_validate (bf_cond fl) then rsb_core base spends max_cost
+    else check_signature sig_ok (rsb_core base spends max_cost).
+
+  (* the block path of a bundle vs the mempool loop of the reversed bundle charged the SAME interned base cost *)
+  Theorem agree_rev_interned spends g program max_cost :
+    Forall good_spend spends ->
+    bf_interned fl = true ->
+    N.of_nat (length spends) <= MAX_SPENDS_PER_BLOCK ->
+    build_generator spends = Some g -> ser g = Some program ->
+    match mempool_core (interned_vbytes g * cpb) (rev spends) max_cost,
+          run_block_generator2 valid_key H K run sig_ok cpb fl gen_args program (nlen program) (max_cost + 20) with
+    | Ok m, Ok b => same_summary 20 b m
+    | Err _, Err _ => True
+    | _, _ => False
+    end.
+  Proof.
+    intros Hall Hi Hlim Hg Hser.
+    assert (HallR : Forall good_spend (rev spends)) by (apply Forall_rev; exact Hall).
+    unfold build_generator in Hg. rewrite (prepend_good spends nil Hall) in Hg. inversion Hg as [Hg']; clear Hg.
+    rewrite <- map_rev in Hg'. set (L := rev spends) in *. set (lst := cons_list (map the_item L) nil) in *. subst g.
+    set (base := interned_vbytes (wrap_generator lst) * cpb).
+    unfold mempool_core, check_signature, rsb_core, bind.
+    unfold run_block_generator2, bind.
+    assert (Hsq : starts_with_quote program = true).
+    { unfold wrap_generator, quote_atom in Hser. cbn [ser] in Hser.
+      change (ser_atom [x01]) with (Some [x01]) in Hser.
+      destruct (match ser lst with Some x => _ | None => None end) as [y|]; [|discriminate].
+      inversion Hser. reflexivity. }
+    rewrite Hsq. cbn [negb]. rewrite Bool.andb_false_r.
+    unfold parse_node. rewrite (node_from_bytes_ser _ _ Hser). rewrite Hi.
+    assert (Hb : interned_vbytes (wrap_generator (cons_list (rev (map the_item spends)) nil)) * cpb = base)
+      by (unfold base, lst, L; now rewrite map_rev).
+    rewrite ?Hb. fold base.
+    unfold subtract_cost.
+    destruct (N.ltb_spec max_cost base) as [Hlt|Hge].
+    { destruct (f_dont_validate (bf_cond fl)).
+      all: destruct (N.ltb_spec (max_cost + 20) base); [exact I|].
+      all: destruct (if bf_simple fl then _ else _); [|exact I].
+      all: change (wrap_generator lst) with (Pair (Atom [x01]) (Pair lst nil)); rewrite Hquote.
+      all: destruct (N.ltb_spec (max_cost + 20 - base) 20); [exact I|lia]. }
+    assert (Hlim2 : (f_limit_spends (bf_cond fl) && (MAX_SPENDS_PER_BLOCK <? N.of_nat (length L))) = false).
+    { unfold L. rewrite rev_length. destruct (N.ltb_spec MAX_SPENDS_PER_BLOCK (N.of_nat (length spends))); [lia|apply Bool.andb_false_r]. }
+    destruct (N.ltb_spec (max_cost + 20) base) as [Hlt2|Hge2]; [lia|].
+    assert (Hnode : (if bf_simple fl then match wrap_generator lst with
+                       | Pair (Atom [b]) _ => if byte_eqb b x01 then Ok tt else Err GeneratorRuntimeError
+                       | _ => Err GeneratorRuntimeError end else Ok tt) = Ok tt).
+    { destruct (bf_simple fl); reflexivity. }
+    rewrite Hnode. clearbody base. change (wrap_generator lst) with (Pair (Atom [x01]) (Pair lst nil)). rewrite Hquote.
+    assert (Hcl : max_cost + 20 - base = (max_cost - base) + 20) by lia.
+    rewrite Hcl.
+    destruct (N.ltb_spec (max_cost - base + 20) 20) as [Hx|_]; [lia|].
+    destruct (N.ltb_spec (max_cost - base + 20) 20) as [Hx|_]; [lia|].
+    replace (max_cost - base + 20 - 20) with (max_cost - base) by lia.
+    cbn [first]. pose proof (prepass_items L HallR) as Hpre. fold lst in Hpre. rewrite Hpre.
+    set (cost0 := max_cost - base).
+    assert (Hsl : match (if f_limit_spends (bf_cond fl) then Some MAX_SPENDS_PER_BLOCK else None) with
+                  | Some k => N.of_nat (length L) <= k | None => True end).
+    { destruct (f_limit_spends (bf_cond fl)); [unfold L; rewrite rev_length; exact Hlim|exact I]. }
+    pose proof (loops_rel L (b_add_exec empty_bundle 20) empty_bundle empty_state cost0 _ HallR eq_refl eq_refl Hsl) as Hloop.
+    fold lst in Hloop.
+    destruct (f_dont_validate (bf_cond fl)) eqn:Hdv; rewrite Hlim2.
+    all: destruct (sb_loop valid_key H K run fl L empty_bundle empty_state cost0) as [[[rm sm] cm]|em] eqn:Esb;
+         destruct (gen_loop valid_key H K run fl lst (b_add_exec empty_bundle 20) empty_state cost0 _) as [[[[re se] ce] term]|ee];
+         try contradiction; try exact I.
+    all: destruct Hloop as (He & Hex & -> & -> & ->).
+    all: apply sb_loop_mc in Esb.
+    all: assert (Hc0 : cost0 <= max_cost) by (unfold cost0; apply N.le_sub_l).
+    all: assert (Hcm : cm <= max_cost) by (eapply N.le_trans; [exact Esb|exact Hc0]).
+    all: assert (Hsp : map erase_sp (fast_rev (b_spends_rev re)) = map erase_sp (post_process H VMempool (fast_rev (b_spends_rev rm)) sm))
+           by (rewrite post_process_erase, !fast_rev_rev, !map_rev; f_equal;
+               pose proof (f_equal b_spends_rev He) as Hq; cbn [erase_b b_spends_rev] in Hq; exact Hq).
+    all: rewrite (validate_rel re rm _ _ sm He Hsp).
+    all: destruct (validate_conditions H rm _ sm); [|exact I].
+    all: destruct (N.ltb_spec max_cost cm) as [Hcm2|_]; [lia|]; cbn [negb andb snd].
+    all: assert (Hsum : same_summary 20
+                 (b_set_cost re (max_cost + 20 - cm), fast_rev (b_spends_rev re), fast_rev (s_pkm_pairs_rev sm))
+                 (b_set_cost rm (max_cost - cm), post_process H VMempool (fast_rev (b_spends_rev rm)) sm, fast_rev (s_pkm_pairs_rev sm)))
+           by (unfold same_summary; cbn [fst snd];
+               split; [pose proof He as He2; unfold erase_b, b_set_cost in He2 |- *; cbn in He2 |- *; inversion He2; congruence|];
+               split; [cbn [b_set_cost b_cost]; lia|];
+               split; [cbn [b_set_cost b_exec_cost]; exact Hex|];
+               split; [exact Hsp|reflexivity]).
+    - exact Hsum.
+    - destruct (sig_ok (fast_rev (s_pkm_pairs_rev sm))); cbn [negb]; [exact Hsum|exact I].
+  Qed.
 End Agree.
 
 (* the fixed wrapper overhead, over the translated QUOTE_BYTES *)
